@@ -210,7 +210,13 @@ func checkOracles(r *Result, sc *scenario) {
 		for j := i + 1; j < len(sc.nodes); j++ {
 			if ok, what := prefixConsistent(sc.nodes[i], sc.nodes[j]); !ok {
 				if sc.nodes[i].batched || sc.nodes[j].batched {
-					r.violateFor("C03", what, "batched-passes-fame", sc.replayPayload(nil))
+					// the known finding is about strongly-see / fame computed differently when the passes are
+					// batched; blocks that differ although every assigned value agrees are something else
+					key := "batched-frames-differ"
+					if assignedValuesDiffer(sc.nodes[i], sc.nodes[j]) {
+						key = "batched-passes-fame"
+					}
+					r.violateFor("C03", what, key, sc.replayPayload(nil))
 				} else {
 					r.violateFor("C01", what, "fork", sc.replayPayload(nil))
 				}
